@@ -193,10 +193,11 @@ static ChildResult run_in_child(const Plan& p, const Cfg& c, u64 sseed, bool wan
 // ---- minimisation: ddmin over operations, then fault/argument simplification, then the schedule
 static Plan minimise(Plan p, const std::string& cls, const Cfg& c, u64 sseed, int* tests_out) {
     int tests = 0; const int MAXTESTS = 1500;
-    auto still = [&](const Plan& q) { if (tests >= MAXTESTS) return false; ++tests; ChildResult r = run_in_child(q, c, sseed, false); return r.violation && r.cls == cls; };
+    double t_end = now_s() + (c.budget_s > 0 ? c.budget_s : 90);      // minimisation is bounded in wall time as well
+    auto still = [&](const Plan& q) { if (tests >= MAXTESTS || now_s() > t_end) return false; ++tests; ChildResult r = run_in_child(q, c, sseed, false); return r.violation && r.cls == cls; };
     // ddmin on ops
     size_t n = 2;
-    while (p.ops.size() >= 2 && tests < MAXTESTS) {
+    while (p.ops.size() >= 2 && tests < MAXTESTS && now_s() < t_end) {
         size_t chunk = (p.ops.size() + n - 1) / n;
         bool reduced = false;
         for (size_t i = 0; i < p.ops.size(); i += chunk) {
@@ -267,6 +268,22 @@ int main(int argc, char** argv) {
         u64 rs = run_seed(c.seed, c.prop, (u64)c.start);
         Plan p = gen::make(c.prop, rs, (int)c.start);
         fputs(p.text().c_str(), stdout);
+        return 0;
+    }
+    if (c.cmd == "concat") {
+        // the histories a worker executed before (and including) a candidate, as one long history: used when a candidate
+        // does not reproduce alone because the library carried state over from earlier runs of the same process
+        Plan last;
+        if (!Plan::parse(read_file(c.plan_path), last)) { fprintf(stderr, "cannot parse plan %s\n", c.plan_path.c_str()); return 3; }
+        Plan all = last; all.ops.clear(); all.ntasks = env::MAXT;
+        for (long r = c.start + c.worker; r < c.runs; r += c.nworkers) {
+            Plan p = gen::make(c.prop, run_seed(c.seed, c.prop, (u64)r), (int)r);
+            all.ops.insert(all.ops.end(), p.ops.begin(), p.ops.end());
+            // what the end-of-run teardown did: release every seed (operations on empty slots are skipped)
+            for (int t = 0; t < env::MAXT; ++t) for (int sl = 0; sl < 8; ++sl) { Op f; f.kind = OP_FREE; f.task = t; f.slot = sl; all.ops.push_back(f); }
+        }
+        all.ops.insert(all.ops.end(), last.ops.begin(), last.ops.end());
+        fputs(all.text().c_str(), stdout);
         return 0;
     }
     if (c.cmd == "info") {
